@@ -1,0 +1,127 @@
+//go:build verif
+
+package mvp7_0
+
+import (
+	"sort"
+
+	"github.com/teivah/majorana/proc/comp"
+	"github.com/teivah/majorana/risc"
+)
+
+// Verification hooks (build tag `verif`, property C06 of /verif): a read-only snapshot of
+// the MSI directory and of the cache controllers, and a rig that exposes the controllers
+// without a pipeline. Nothing outside verif-tagged code calls them.
+
+// VerifSnapshot exports the protocol state of the machine (call it at a cycle boundary).
+func (m *CPU) VerifSnapshot() comp.VerifMsiSnapshot {
+	return verifSnapshot(m.msi, m.cacheControllers)
+}
+
+func verifSortedKeys(m map[comp.AlignedAddress]*comp.Sem) []int32 {
+	res := make([]int32, 0, len(m))
+	for k := range m {
+		res = append(res, int32(k))
+	}
+	sort.Slice(res, func(i, j int) bool { return res[i] < res[j] })
+	return res
+}
+
+func verifSnapshot(ms *msi, ccs []*cacheController) comp.VerifMsiSnapshot {
+	s := comp.VerifMsiSnapshot{L1LineSize: l1DCacheLineSize}
+	for e, st := range ms.states {
+		s.States = append(s.States, comp.VerifMsiState{Core: e.id, Addr: int32(e.alignedAddr), State: st})
+	}
+	sort.Slice(s.States, func(i, j int) bool {
+		if s.States[i].Core != s.States[j].Core {
+			return s.States[i].Core < s.States[j].Core
+		}
+		return s.States[i].Addr < s.States[j].Addr
+	})
+	for req, info := range ms.commands {
+		s.Cmds = append(s.Cmds, comp.VerifMsiCmd{Core: req.id, Addr: int32(req.alignedAddr), Kind: req.request, Done: info.doneFlag})
+	}
+	sort.Slice(s.Cmds, func(i, j int) bool {
+		a, b := s.Cmds[i], s.Cmds[j]
+		if a.Core != b.Core {
+			return a.Core < b.Core
+		}
+		if a.Addr != b.Addr {
+			return a.Addr < b.Addr
+		}
+		return a.Kind < b.Kind
+	})
+	for addr, sem := range ms.pendings {
+		r, w := sem.VerifCounts()
+		s.Sems = append(s.Sems, comp.VerifMsiSem{Addr: int32(addr), Read: r, Write: w})
+	}
+	sort.Slice(s.Sems, func(i, j int) bool { return s.Sems[i].Addr < s.Sems[j].Addr })
+	for _, cc := range ccs {
+		n, _ := cc.l1d.VerifGeometry()
+		s.L1Lines = n
+		s.Cores = append(s.Cores, comp.VerifMsiCore{
+			ReadActive:   !cc.read.IsStart(),
+			WriteActive:  !cc.write.IsStart(),
+			SnoopPending: !cc.snoop.IsStart(),
+			RLocks:       verifSortedKeys(cc.rlockSems),
+			Locks:        verifSortedKeys(cc.lockSems),
+			L1:           cc.l1d.VerifLines(),
+		})
+	}
+	return s
+}
+
+// VerifRig is a directory, a memory and `cores` cache controllers without a pipeline.
+type VerifRig struct {
+	ctx *risc.Context
+	mmu *memoryManagementUnit
+	msi *msi
+	ccs []*cacheController
+}
+
+// NewVerifRig builds the rig exactly as NewCPU builds that part of the machine.
+func NewVerifRig(cores int, memoryBytes int) *VerifRig {
+	ctx := risc.NewContext(false, memoryBytes, true)
+	mmu := newMemoryManagementUnit(ctx)
+	ms := newMSI()
+	r := &VerifRig{ctx: ctx, mmu: mmu, msi: ms}
+	for i := 0; i < cores; i++ {
+		r.ccs = append(r.ccs, newCacheController(i, ctx, mmu, ms))
+	}
+	return r
+}
+
+// Memory is the backing memory (the rig's owner may initialise it before the first request).
+func (r *VerifRig) Memory() []int8 { return r.ctx.Memory }
+
+// Snoop runs one cycle of a core's snoop coroutine (CPU.Run does this for every core, in
+// order, before the execute units).
+func (r *VerifRig) Snoop(core int) { r.ccs[core].snoop.Cycle(struct{}{}) }
+
+// Read runs one cycle of a core's read coroutine with the given request (an execute unit
+// repeats the call with the same request every cycle until done).
+func (r *VerifRig) Read(core int, cycle int, addrs []int32) ([]int8, bool) {
+	resp := r.ccs[core].read.Cycle(ccReadReq{cycle, addrs})
+	return resp.data, resp.done
+}
+
+// Write runs one cycle of a core's write coroutine.
+func (r *VerifRig) Write(core int, cycle int, addrs []int32, data []int8) bool {
+	return r.ccs[core].write.Cycle(ccWriteReq{cycle, addrs, data}).done
+}
+
+// Flush is what executeUnit.flush does to its cache controller.
+func (r *VerifRig) Flush(core int) { r.ccs[core].flush() }
+
+// Idle tells whether the three coroutines of a core are at their start.
+func (r *VerifRig) Idle(core int) bool { return r.ccs[core].isEmpty() }
+
+// Export writes the Modified lines back, as the end of CPU.Run does.
+func (r *VerifRig) Export() {
+	for _, cc := range r.ccs {
+		cc.export()
+	}
+}
+
+// Snapshot exports the protocol state of the rig.
+func (r *VerifRig) Snapshot() comp.VerifMsiSnapshot { return verifSnapshot(r.msi, r.ccs) }
